@@ -572,6 +572,39 @@ def long_cases(rng, n, kinds=None):
     return out
 
 
+def long_monotone_oracle(rng, n):
+    """C10's last clause on the implementation at sample sizes no exhaustive stream reaches: a round that only APPENDS
+    observations (k1 -> k2 draws of one long sample, k1 and k2 on either side of plausible block sizes: 64, 1024, 2048)
+    never raises the overall p-value of a test whose overall value is the smallest history entry, and leaves the
+    history of the first k1 - 1 draws unchanged.  Returns (violations, runs)."""
+    bad, runs = [], 0
+    kinds = ["alpha_shrink", "bet_agrapa", "alpha_fixed", "bet_fixed", "alpha_shrink", "bet_agrapa"]
+    for i in range(n):
+        kind = kinds[i % len(kinds)]
+        cfg = gen_cfg(rng, kind=kind)
+        cfg["long"] = "append"
+        if kind == "alpha_shrink":
+            cfg["p"]["f"] = rng.choice([F(0), F(1, 2), F(2), F(1, 8)])
+        k2 = rng.choice([70, 130, 300, 1030, 1100, 2049, 2100, 2400, 2600])
+        k1 = rng.choice([b for b in (40, 60, 64, 100, 1000, 1024, 2000, 2048) if b < k2])
+        if cfg["N"] is not None:
+            cfg["N"] = k2 + rng.choice([0, 10, k2, 20 * k2])
+        xs = long_xs(rng, cfg, k2)
+        a, b = run_impl(cfg, xs[:k1], variant=i), run_impl(cfg, xs, variant=i)
+        runs += 2
+        if a["exc"] or b["exc"] or math.isnan(a["p"]) or math.isnan(b["p"]):
+            continue
+        inp = {"cfg": C.jsonable(cfg), "xs": C.jsonable(xs), "k1": k1, "k2": k2}
+        if b["p"] > a["p"] * (1 + 1e-9) + 1e-300:
+            bad.append((f"{kind}: the measured risk rises when observations are appended ({k1} -> {k2} draws)",
+                        inp, {"p_before": a["p"], "p_after": b["p"]}))
+        elif not all(close(u, v) for u, v in zip(a["hist"][:k1 - 1], b["hist"][:k1 - 1])):
+            j = next(j for j, (u, v) in enumerate(zip(a["hist"][:k1 - 1], b["hist"][:k1 - 1])) if not close(u, v))
+            bad.append((f"{kind}: appending observations changes an earlier entry of the p-value history ({k1} -> {k2} draws)",
+                        inp, {"index": j, "before": a["hist"][j], "after": b["hist"][j]}))
+    return bad, runs
+
+
 def long_stats(cases):
     st = {}
     for c in cases:
